@@ -16,6 +16,54 @@ Definition faithful_dict (d : dict) (o : obs) : bool :=
   | _, _ => false
   end.
 
+(* "the ordered file list equals what the document says", read from the dictionary without the model's find_files /
+   parse_meta: a single-file torrent (info.length) is one file named info.name; otherwise every entry of info.files
+   that is a dictionary with an integer length in u64 and a UTF-8 path is a file, in the document's order, zero-length
+   ones included.  The accessor file_piece_ranges is compared with it: as many ranges, in order, with these paths (below
+   the name directory when there are two or more) and covering these many bytes each (range ends minus range starts in
+   bytes; where each boundary falls is C03's business). *)
+Definition spec_entry (v : bvalue) : option (bytes * N) :=
+  match v with
+  | BDict e => match map_get k_length e, map_get k_path e with
+               | Some (BInt z), Some (BStr p) =>
+                   if (0 <=? z)%Z && (z <? 18446744073709551616)%Z && utf8_valid p then Some (p, Z.to_N z) else None
+               | _, _ => None
+               end
+  | _ => None
+  end.
+Definition spec_files (d : dict) : option (bytes * N * list (bytes * N)) :=      (* name, piece length, files *)
+  match map_get k_info d with
+  | Some (BDict i) =>
+      match map_get k_name i, map_get k_piece_length i with
+      | Some (BStr name), Some (BInt pl) =>
+          if (0 <? pl)%Z then
+            match map_get k_length i with
+            | Some (BInt z) => if (0 <=? z)%Z && (z <? 18446744073709551616)%Z then Some (name, Z.to_N pl, [(name, Z.to_N z)]) else None
+            | _ => match map_get k_files i with
+                   | Some (BList l) => Some (name, Z.to_N pl, Metainfo.filter_map spec_entry l)
+                   | _ => None
+                   end
+            end
+          else None
+      | _, _ => None
+      end
+  | _ => None
+  end.
+Fixpoint ranges_match (dir : bytes) (pl : N) (fs : list (bytes * N)) (rs : list (bytes * N * N * N * N)) : bool :=
+  match fs, rs with
+  | [], [] => true
+  | (p, l) :: fs', (rp, si, sb, ei, eb) :: rs' =>
+      bytes_eqb rp (join_path dir p) && (ei * pl + eb =? si * pl + sb + l) && ranges_match dir pl fs' rs'
+  | _, _ => false
+  end.
+Definition files_faithful (d : dict) (o : obs) : bool :=
+  match o_ranges o, spec_files d with
+  | Ok rs, Some (name, pl, fs) =>
+      ranges_match (match fs with _ :: _ :: _ => name | _ => [] end) pl fs rs
+  | Ok _, None => false
+  | _, _ => true              (* the accessor failed or panicked: judged by the other clauses *)
+  end.
+
 Definition code (c : case) : N :=
   match c with
   | CMeta ovf doc impl =>
@@ -30,7 +78,7 @@ Definition code (c : case) : N :=
                        || existsb (fun ir => is_panic (snd ir)) (o_plen ob)
                        || is_panic (o_total ob) || is_panic (o_ranges ob) in
             let faithful := match decode doc with
-                            | Ok vs => existsb (fun v => match v with BDict d => faithful_dict d ob | _ => false end) vs
+                            | Ok vs => existsb (fun v => match v with BDict d => faithful_dict d ob && files_faithful d ob | _ => false end) vs
                             | _ => false
                             end in
             let cls := match metainfo_of doc with
